@@ -799,11 +799,12 @@ func a3(w *World, r *Report) {
 		if feeOK && call.Parent() != nil && postRun[call.Parent()] {
 			// in a helper the context parameter is whatever position it has there: compare with
 			// the fee expression over that parameter
-			c := w.canonCallI(call.Common())
-			for i := 0; i < 3; i++ {
-				pi := fmt.Sprintf("p%d", i)
-				if c == pi+".Sender.SubBalance("+strings.ReplaceAll(feeExpr, "p0.", pi+".")+")" {
-					return true
+			for _, c := range []string{w.canonCallI(call.Common()), w.canonCallArgsI(call.Common())} {
+				for i := 0; i < 3; i++ {
+					pi := fmt.Sprintf("p%d", i)
+					if c == pi+".Sender.SubBalance("+strings.ReplaceAll(feeExpr, "p0.", pi+".")+")" {
+						return true
+					}
 				}
 			}
 		}
